@@ -115,6 +115,12 @@ def glRule (rnd : Rat → Rat) (cospi : Rat → Rat) (eps : Rat) (fuel n : Nat) 
   | none => none
   | some zs => some (glAssemble n xmin xmax (fun i => (zs.getD i (0, 0)).1) (fun i => (zs.getD i (0, 0)).2))
 
+/-- a sequence of rule computations in one process: the C++ function has no state, every answer is the
+    rule of its own arguments `(n, xmin, xmax)` -/
+def glSeq (rnd : Rat → Rat) (cospi : Rat → Rat) (eps : Rat) (fuel : Nat) (reqs : List (Nat × Rat × Rat)) :
+    List (Option (List (Rat × Rat))) :=
+  reqs.map (fun r => glRule rnd cospi eps fuel r.1 r.2.1 r.2.2)
+
 /-! ## The three overloads -/
 
 inductive Err where
